@@ -113,7 +113,7 @@ class CHECK(vlib.Check):
 
     def gen_cases(self, rng, tier):
         out = []
-        n_rand = 1200 if tier == "quick" else 12000
+        n_rand = 800 if tier == "quick" else 12000
         for i in range(n_rand):
             n = rng.choice([2, 2, 3, 3, 3, 4])
             if i % 5 == 4:
@@ -124,7 +124,7 @@ class CHECK(vlib.Check):
                 stream = "random"
             seed = "-" if i % 10 == 0 else str(rng.randint(1, 10 ** 9))
             out.append((stream, "p=%d,n=%d,seed=%s,sch=|%s" % (rng.randint(0, 1), n, seed, interleave(rng, progs))))
-        reps = 12 if tier == "quick" else 60
+        reps = 8 if tier == "quick" else 60
         for (n, body) in DIRECTED:
             for pref in (0, 1):
                 out.append(("directed", "p=%d,n=%d,seed=-,sch=|%s" % (pref, n, body)))
